@@ -77,6 +77,12 @@ def run(ctx):
     mc = ctx.tlc("MC_ServerConn", "MC_ServerReconf", workers=8, label="mc-reconf")
     ctx.require_ok(mc, "MC_ServerReconf")
     ctx.require_actions(mc, ["IdleTimeout", "ServiceYield", "WriteOne"])
+    # feedback-only stream items (XFR style): inside a transaction a full
+    # queue waits -- nothing is lost, with or without D_queue_full_drop
+    for cfg in (["MC_ServerXfr", "MC_ServerXfr_D_queue_full_drop"] if thorough else ["MC_ServerXfr"]):
+        mc = ctx.tlc("MC_ServerConn", cfg, workers=8, label="mc-" + cfg)
+        ctx.require_ok(mc, cfg)
+        ctx.require_actions(mc, ["ServiceYield", "Enqueue", "WriteOne"])
     mc = ctx.tlc("MC_ServerConn", "MC_ServerDgram", workers=4, label="mc-dgram")
     ctx.require_ok(mc, "MC_ServerDgram")
     ctx.require_actions(mc, DGRAM_ACTIONS)
@@ -111,13 +117,17 @@ def run(ctx):
 
     # ---- 3. S->I: behaviours of the connection / datagram machines ----
     parts = []
-    for cfg in ["Gen_ServerConn_directed", "Gen_ServerConn_directed_q2", "Gen_ServerDgram_directed"]:
+    for cfg in ["Gen_ServerConn_directed", "Gen_ServerConn_directed_q2", "Gen_ServerDgram_directed",
+                "Gen_ServerConn_defaults", "Gen_ServerDgram_defaults"]:
         p = os.path.join(ctx.work, cfg + ".ndjson")
         _gen(ctx, "Gen_ServerConn", cfg, p, "gen-" + cfg)
         parts.append(p)
     sims = [("Gen_ServerConn", 1200 if thorough else 300, 1),
             ("Gen_ServerConn_q2", 600 if thorough else 150, 2),
             ("Gen_ServerDgram", 200 if thorough else 50, 3)]
+    if not thorough:
+        # capacity 2 is covered by the directed scenarios in the quick tier
+        sims = [x for x in sims if x[0] != "Gen_ServerConn_q2"]
     for cfg, num, k in sims:
         p = os.path.join(ctx.work, cfg + ".ndjson")
         _gen(ctx, "Gen_ServerConn", cfg, p, "gen-" + cfg, simulate=num, seed=ctx.seed * 10 + k)
